@@ -48,11 +48,17 @@ func main() {
 	repo := flag.String("repo", "/repo", "repository working tree")
 	verif := flag.String("verif", "/verif", "verification directory")
 	keep := flag.Bool("keep", false, "keep all SMT files")
+	evDir := flag.String("evidence", "", "directory for the evidence file (default <verif>/evidence); scratch runs against modified trees use another one")
 	flag.Parse()
 	if *tier == "" {
 		*tier = "quick"
 	}
 	repoDir = *repo
+	if *evDir != "" {
+		evidenceDir = *evDir
+	} else {
+		evidenceDir = filepath.Join(*verif, "evidence")
+	}
 	seed := 1
 	if s := os.Getenv("VERIF_SEED"); s != "" {
 		if v, err := strconv.Atoi(s); err == nil {
@@ -401,6 +407,7 @@ func (ev *Evidence) addAssumption(s string) {
 }
 
 var repoDir = "/repo"
+var evidenceDir = "/verif/evidence"
 
 type replayEntry struct {
 	Obligation string `json:"obligation"`
@@ -527,9 +534,9 @@ func finish(ev *Evidence, cfg *PropCfg, violations []Violation, findings []Findi
 	for _, s := range ev.BySolver {
 		s.Seconds = round3(s.Seconds)
 	}
-	_ = os.MkdirAll(filepath.Join(verif, "evidence"), 0o755)
+	_ = os.MkdirAll(evidenceDir, 0o755)
 	b, _ := json.MarshalIndent(ev, "", " ")
-	_ = os.WriteFile(filepath.Join(verif, "evidence", prop+".json"), b, 0o644)
+	_ = os.WriteFile(filepath.Join(evidenceDir, prop+".json"), b, 0o644)
 	for _, l := range lines {
 		fmt.Println(l)
 	}
